@@ -387,7 +387,8 @@ type opSpec struct {
 	K      int64 `json:"k"`
 	D      int64 `json:"d"`
 	// per store callback of this operation, in call order.  units: 0 ok, 1 error, 2 error that reads as not-found,
-	// 3 "nil, no error"; tens: 1 = the callback cancels the caller's context when it is entered, 2 = just before
+	// 3 "nil, no error", 4 error handed back TOGETHER with a non-nil value, 5 the same with the not-found error
+	// (ORM style `return &row, err`; only the deterministic class seq/value-with-error scripts 4 and 5); tens: 1 = the callback cancels the caller's context when it is entered, 2 = just before
 	// it returns success
 	Faults []int `json:"f"`
 	// scheduled runs: Ab - the caller gives up (its context is cancelled by the scheduler) while the worker is parked in
@@ -427,7 +428,7 @@ func (o opSpec) String() string {
 func coqFaults(fs []int) string {
 	out := make([]string, len(fs))
 	for i, f := range fs {
-		out[i] = []string{"FOk", "FErr", "FNF", "FNil"}[f%10]
+		out[i] = []string{"FOk", "FErr", "FNF", "FNil", "FErrV", "FNFV"}[f%10]
 	}
 	return vh.CoqList(out)
 }
@@ -670,13 +671,17 @@ func (h *hist) write(k, d int64, from val) (answer int64) {
 }
 func faultErr(f int) error {
 	switch f {
-	case 1:
+	case 1, 4:
 		return errInj
-	case 2:
+	case 2, 5:
 		return errNF
 	}
 	return nil
 }
+
+// what a callback scripted 4 / 5 hands back next to its error: a non-nil value that is no row of the store (the
+// store's own values carry a write count >= 0 in the ten-thousands and a mark < 101 in the millions)
+const junkWithError int64 = 990000042
 func sresOf(v val, err error) result {
 	if err != nil {
 		return result{Kind: "err", E: errName(err)}
@@ -706,6 +711,9 @@ func (h *hist) callback(ctx context.Context, kind string, k, d int64, pre val, b
 		oc.cancel()
 	}
 	if err != nil {
+		if f == 4 || f == 5 {
+			return junkWithError, err // a value together with the error: the handlers must not look at it
+		}
 		return nil, err
 	}
 	return v.iface(), nil
